@@ -198,6 +198,28 @@ class Body:
         self._calls = None
         self._reach = None
 
+    def self_aliases(self):
+        """Locals that hold the receiver reference itself: `_1` and its plain copies / reborrows `&mut *_1` (a helper spliced
+        into a method receives the receiver under a local of its own)."""
+        alias = {1}
+        changed = True
+        while changed:
+            changed = False
+            for bb in self.reachable():
+                for st in self.stmts(bb):
+                    if st["k"] != "assign" or st["lhs"]["p"] or st["lhs"]["l"] in alias:
+                        continue
+                    rv = st["rv"]
+                    src = None
+                    if rv["r"] == "ref" and rv["p"]["l"] in alias and [proj_key(p) for p in rv["p"]["p"]] == ["*"]:
+                        src = rv["p"]["l"]
+                    elif rv["r"] == "use" and op_place(rv["o"]) is not None and op_place(rv["o"])["l"] in alias and not op_place(rv["o"])["p"]:
+                        src = op_place(rv["o"])["l"]
+                    if src is not None and len([d for d in self.defs(st["lhs"]["l"]) if not d[4]]) == 1:
+                        alias.add(st["lhs"]["l"])
+                        changed = True
+        return alias
+
     def return_aliases(self):
         """Locals that stand for the return place because an inlined helper's result is handed on unchanged:
         {local: 'both'} when the helper call's destination is the return place itself (`return helper(..)` / tail call),
